@@ -142,7 +142,7 @@ CHECKS["C08"] = {
                        "types/wchar.py:Wchar._read_array", "types/leb128.py:LEB128._read",
                        "types/structure.py:UnionMetaType._read", "<compiled>"],
     "required_cells": ["align:True", "align:False", "compiled:True", "compiled:False", "dynamic-union", "feat:union",
-                       "feat:bits"],
+                       "feat:bits", "direct-types"],
     "assumptions": ASSUME_COMMON + ["faults are injected at read() calls of file-like streams; bytes inputs are "
                                     "covered through the cut points"],
 }
